@@ -163,9 +163,11 @@ CLAIMS = {
              "passing through, whatever state the object has been through); Detrender.transform / inverse_transform subtract / add the "
              "trend forecast requested at exactly the series' own time points (absolute horizon = the series' index) and keep the index; "
              "TabularToSeriesAdaptor applies the wrapped transformer to the series as one column and keeps the index; Imputer.transform "
-             "returns a new series on the input's index; round-trip lemmas over the contracts.",
+             "returns a new series on the input's index; LogTransformer / BoxCoxTransformer transform and inverse_transform apply log / exp / "
+             "boxcox / inv_boxcox element-wise with the SAME fitted lambda and keep the index; round-trip lemmas over the contracts.",
         note="stretch index modelled as a contiguous integer range; the trend forecaster / wrapped transformer are abstract "
-             "(deterministic); Box-Cox / log inverses (transcendental functions, scipy optimiser) and HampelFilter index handling are "
+             "(deterministic); log / exp / boxcox / inv_boxcox are uninterpreted functions (that exp inverts log etc. is assumed mathematics, "
+             "compared numerically by the bounded tier); the Box-Cox lambda search (scipy optimiser) and HampelFilter index handling are "
              "bounded-tier only",
         technique="contract-based deductive verification: AST->VC generation (pyvc) + z3/cvc5; modular arithmetic via quotient/remainder",
         design="6/C13"),
